@@ -3,6 +3,9 @@
 (* monitor of Styling.tla.  Batch scheme of TrNegotiation: one initial state per trace,  *)
 (* register t0 keeps the furthest line consumed, every rejected trace is printed with    *)
 (* the line of the observation that could not be accepted and the violated clause.       *)
+(* The reset line of a trace carries the document (input), the API, the delivery the     *)
+(* decoder saw (rd, eof: see Styling.tla) and, for every run but the reference run of    *)
+(* the document, the observations of the reference run (ref).                            *)
 EXTENDS Styling, Json
 
 Trace == ndJsonDeserialize("trace.ndjson")
@@ -19,7 +22,7 @@ TInit ==
 
 TrReset ==
   /\ l = t0 /\ Trace[l].ev = "reset"
-  /\ st' = Start(Trace[l].input, Trace[l].api, Trace[l].ref)
+  /\ st' = StartD(Trace[l].input, Trace[l].api, Trace[l].ref, Trace[l].rd, Trace[l].eof)
   /\ l' = l + 1
   /\ UNCHANGED <<out, lastNL>>
 
@@ -48,7 +51,7 @@ TSpec == TInit /\ [][TNext]_tvars
 HW == TLCSet(t0, IF TLCGet(t0) < l THEN l ELSE TLCGet(t0))
 (* a trace is accepted when all its lines were consumed and its last line was the end   *)
 Rejected == {i \in Starts : TLCGet(i) # EndOf(i)}
-Why(i) == WhyNot(Trace[i].input, Trace[i].api, Trace[i].ref, SubSeq(Trace, i + 1, EndOf(i) - 1))
+Why(i) == WhyNotD(Trace[i].input, Trace[i].api, Trace[i].ref, Trace[i].rd, Trace[i].eof, SubSeq(Trace, i + 1, EndOf(i) - 1))
 Accepted ==
   \/ Rejected = {}
   \/ PrintT(<<"REJECTED", {<<Trace[i].t, TLCGet(i), Why(i)>> : i \in Rejected}>>) /\ FALSE
